@@ -189,6 +189,21 @@ def run(prog, chk):
     else:
         chk.bad("C14.T3", f, "buffered-events-not-pruned", "%s:%s" % (f.file, f.line),
                 "Poll::set: %s — an event kind that was just un-registered (e.g. read after suspend()) is still delivered from the buffered round" % why)
+    pl = [f for f in prog.functions.values() if f.gname == "Socket::Poll::Private::poll" and f.file.endswith("Socket.cpp")]
+    if pl:
+        f = pl[0]
+        st = C.nstores(f)
+        sock = [s_.node for s_, l, r in st if l == "event.socket" and "key()" in r]
+        flg = [s_.node for s_, l, r in st if l == "event.flags" and r.startswith("*")]
+        pop = [c for c in q.calls(f) if re.search(r"selectedSockets\.remove\(it\)", f.r(c))]
+        fill = [c for c in q.calls(f) if re.search(r"selectedSockets\.append\(", f.r(c))]
+        ok = bool(sock) and bool(flg) and bool(pop) and all(q.reaches(f, a_, p_) for a_ in sock + flg for p_ in pop)
+        # the refill from epoll_wait happens only when nothing is buffered
+        refill_guard = all(any(a[0] != "case" and a[1] and fin.key(f, a[0]) == "this->selectedSockets.isEmpty()" for a in fin.dominating_atoms(f, f.node_pos(c))) for c in fill)
+        if ok and refill_guard:
+            chk.ok("C14.T3", f, "poll() delivers one buffered event, pops it, and refills only when the buffer is empty", "%s:%s" % (f.file, f.line), "ORD + dominating atom", evals=3)
+        else:
+            chk.bad("C14.T3", f, "poll-delivery", "%s:%s" % (f.file, f.line), "poll() must copy the first buffered (socket, flags) into the event, remove that entry, and call epoll_wait only when no buffered event is left (else events are duplicated or overwritten)")
     # ------------------------------------------------------------------ T4
     table = {}
     for f in prog.functions.values():
